@@ -101,6 +101,15 @@ def history(cls, u1, u2, u3, c1, c2, pricer, cost):
     d.add_clause("b", c2)
     return d, p0, p1, d.payoff()
 ''',
+    "amend": '''
+def history(cls, u1, u2, u3, c1, c2, pricer, cost):
+    d = cls(u1)
+    p0 = d.payoff()
+    d.add_clause("a", c1)
+    p1 = d.payoff()
+    d.add_clause("a", c2)
+    return d, p0, p1, d.payoff()
+''',
 }
 
 
@@ -186,6 +195,11 @@ def _judge(name, v, w):
             bad.append(f"payoff() after add_clause(a) is {str(p1)[:80]}, expected c1(self, payoff_fn())")
         if not (isinstance(p2, Op) and p2.op == "call" and len(p2.args) == 3 and p2.args[0] == c2 and p2.args[1] is d and p2.args[2] == want1):
             bad.append(f"payoff() after add_clause(a), add_clause(b) is {str(p2)[:100]}, expected c2(self, c1(self, payoff_fn()))")
+    elif name == "amend":
+        # the clause registered under a name is the LAST one registered under it: a payoff evaluated before the amendment must not survive it
+        d, p0, p1, p2 = v
+        if not (isinstance(p2, Op) and p2.op == "call" and len(p2.args) == 3 and p2.args[0] == c2 and p2.args[1] is d and p2.args[2] == p0):
+            bad.append(f"payoff() after add_clause(a, c1), payoff(), add_clause(a, c2) is {str(p2)[:100]}, expected c2(self, payoff_fn())")
     return bad
 
 
@@ -233,7 +247,7 @@ def histories_rule(ctx, run, rule, only=None, classes=None):
 
 def _blame(prog, name, q):
     """the report is anchored at the method the history turns on; the message carries the history itself"""
-    return prog.lookup_method(q, {"clauses": "delist", "relist": "list", "relist-zero": "list", "rebind": "ul", "re-register": "register_underlier", "second": "register_underlier", "fold": "payoff"}[name])
+    return prog.lookup_method(q, {"clauses": "delist", "relist": "list", "relist-zero": "list", "rebind": "ul", "re-register": "register_underlier", "second": "register_underlier", "fold": "payoff", "amend": "payoff"}[name])
 
 
 PRIMARY_HISTORIES = {
